@@ -91,7 +91,20 @@ func runOn(w *hx.World, cn conn, bs *simbmc.Session, inSession bool, cmdName str
 	}
 	ctx, cancel := w.Ctx(cancelAt)
 	defer cancel()
-	code, err := cn.SendCommand(ctx, call.Cmd)
+	var code ipmi.CompletionCode
+	var err error
+	done := make(chan struct{})
+	go func() {
+		defer close(done)
+		code, err = cn.SendCommand(ctx, call.Cmd)
+	}()
+	select {
+	case <-done:
+	case <-time.After(30 * time.Second):
+		// nothing here waits on a clock (in-memory transport, zero back-off): a call
+		// still running now, with its context long cancelled, will never return
+		return fmt.Sprintf("inSession=%v %s %s: the call had not returned 30 s after its context was cancelled (context error: %v)", inSession, call.Name, hx.ScriptString(script), ctx.Err())
+	}
 	sends := w.Net.Sends - start
 	ev.Eval()
 	exp := hx.Model(script, inSession, call.HasBody)
